@@ -68,6 +68,7 @@ theorem asciiCls_ok : ClsOK asciiCls where
     split <;> simp <;> omega
   parenNotSpace := by decide
   space := by decide
+  upper := by decide
 
 example : SpaceFreeT asciiCls [⟨[109, 105, 116], [], false⟩, ⟨[71, 80, 76], [], true⟩] := by
   intro e he
